@@ -211,6 +211,9 @@ int main(int argc, char **argv)
 				nm = maio_set(n, maio);
 				for (k = 0; k < nm; k++) {
 					unsigned i, p = spec_pow_nbin(n);
+					/* progress marker: a sanitizer death is attributable to this configuration */
+					printf("P hsn=%u n=%u maio=%u\n", hsn, n, maio[k]);
+					fflush(stdout);
 					configure(hsn, maio[k], n);
 					for (i = 0; i < NFULL; i++) {
 						unsigned want = spec_mai_t(hsn, maio[k], n, p, full_fn[i],
